@@ -38,6 +38,21 @@ func wrapIn(k string, lvl int, inner []*model.N) []*model.N {
 		return []*model.N{model.For(nil, nil, nil, model.Block(append(body, model.Break())...))}
 	case "while-true":
 		return []*model.N{model.While(model.Bool(true), model.Block(append(body, model.Break())...))}
+	case "for-traced":
+		// every header part has an effect that outlives the loop: a traced call (prints, counts) and a step
+		// that also advances a variable of the program level
+		j := "t" + id
+		tr := func(tag string, v *model.N) *model.N { return model.CallN("tr", model.Str(tag+id), v) }
+		return []*model.N{model.For(model.Var(j, tr("init", model.Num(0))), tr("cond", model.Bin("<", model.Id(j), model.Num(2))),
+			model.Asg(j, tr("step", model.Bin("+", model.Id(j), model.Num(1)))), model.Block(body...))}
+	case "for-outer-step":
+		j := "o" + id
+		return []*model.N{model.For(model.Var(j, model.Num(0)), model.Bin("<", model.Id(j), model.Num(2)), model.Asg("outerstep", model.Bin("+", model.Id("outerstep"), model.Num(1))),
+			model.Block(append([]*model.N{model.ExprS(model.Asg(j, model.Bin("+", model.Id(j), model.Num(1))))}, body...)...))}
+	case "while-traced":
+		w := "x" + id
+		b := append([]*model.N{model.ExprS(model.Asg(w, model.Bin("+", model.Id(w), model.Num(1))))}, body...)
+		return []*model.N{model.Var(w, model.Num(0)), model.While(model.CallN("tr", model.Str("wcond"+id), model.Bin("<", model.Id(w), model.Num(2))), model.Block(b...))}
 	case "for":
 		j := "j" + id
 		return []*model.N{model.For(model.Var(j, model.Num(0)), model.Bin("<", model.Id(j), model.Num(2)), model.Asg(j, model.Bin("+", model.Id(j), model.Num(1))), model.Block(body...))}
@@ -56,7 +71,7 @@ func C04(c *fw.Ctx) {
 	c.Bound("return_nesting_depth", depth)
 	c.Bound("closure_interleaving_len", ilen)
 	c.R.Rule = "return at every nesting path over {block, if-then, if-else, while, for}; arity n x m; every kind in callee position; direct and mutual recursion; every interleaving of calls to sibling closures of two counter instances under four holder forms; late update and use-after-scope; non-trivial = model-specified; distinct by text"
-	kinds := []string{"block", "then", "else", "while", "for", "for-noinc", "for-bare", "while-true"}
+	kinds := []string{"block", "then", "else", "while", "for", "for-noinc", "for-bare", "while-true", "for-traced", "for-outer-step", "while-traced"}
 	pool := newProgPool(40)
 	defer func() {
 		// every ordered pair of an evenly spread sub-sequence of this shard's programs, as `{ P } { Q }`
@@ -374,10 +389,13 @@ func C04(c *fw.Ctx) {
 				body := append([]*model.N{T("enter")}, inner...)
 				body = append(body, T("dead-tail"), model.Return(model.Str("fallthrough")))
 				prog := []*model.N{
+					model.Var("traced", model.Num(0)), model.Var("outerstep", model.Num(0)),
+					model.Fun("tr", []string{"t", "v"}, model.Print(model.Id("t")), model.ExprS(model.Asg("traced", model.Bin("+", model.Id("traced"), model.Num(1)))), model.Return(model.Id("v"))),
 					model.Fun("f", []string{"a"}, body...),
 					model.Print(model.CallN("f", model.Num(7))),
 					model.Var("r", model.Arr(model.CallN("f", model.Num(7)), model.Num(1))),
 					model.Print(model.Id("r")),
+					model.Print(model.Arr(model.Id("traced"), model.Id("outerstep"))),
 					T("end"),
 				}
 				run("return|"+path[len(path)-1], prog)
